@@ -86,6 +86,27 @@ def build():
     add("sep_apostrophe", [("digit_separator", 39), ("internal_digit_separator", True)], req=["format"], tags=["sep", "uniform"])
     add("sep_syntax_mix", [SEP, ("internal_digit_separator", True), ("required_digits", True), ("no_special", True)], req=["format"],
         tags=["sep", "syntax"])
+    # ---- prebuilt language formats: the real constants (lexical_core::format::NAME); their meaning is the setter chain
+    # of their definition, harvested from lexical-util/src/prebuilt_formats.rs into harness/prebuilt.json
+    pre = os.path.join(os.path.dirname(os.path.abspath(__file__)), "..", "harness", "prebuilt.json")
+    if os.path.exists(pre):
+        seen = set()
+        n = 0
+        for (name, calls) in json.load(open(pre)):
+            key = json.dumps(calls)
+            if key in seen or not calls:
+                continue
+            seen.add(key)
+            needs_p2 = any(c[0] in ("mantissa_radix", "exponent_base", "exponent_radix", "base_prefix", "base_suffix", "radix",
+                                    "case_sensitive_base_prefix", "case_sensitive_base_suffix") for c in calls)
+            tags = ["prebuilt", "syntax"]
+            if any("digit_separator" in c[0] for c in calls):
+                tags.append("sep")
+            F.append({"id": len(F), "name": "pre_" + name, "calls": calls, "req": ["format"] + (["pow2"] if needs_p2 else []),
+                      "types": "core", "tags": tags, "const": name})
+            n += 1
+            if n >= 40:
+                break
     return F
 
 if __name__ == "__main__":
